@@ -105,11 +105,16 @@ impl WorkspaceManager {
     }
 
     pub fn workspace_open_files(&self) -> Vec<(Uri, String)> {
-        self.open_file_texts
+        let mut files: Vec<(Uri, String)> = self
+            .open_file_texts
             .iter()
             .filter(|(uri, _)| self.is_workspace_file(uri))
             .map(|(uri, text)| (uri.clone(), text.clone()))
-            .collect()
+            .collect();
+        // the map is randomly seeded and file ids are handed out in submission order:
+        // sort so that a reload registers the open files in the same order every time
+        files.sort_by(|a, b| a.0.as_str().cmp(b.0.as_str()));
+        files
     }
 
     fn workspace_open_files_snapshot(&self) -> OpenFilesSnapshot {
